@@ -362,5 +362,5 @@ func checkNoCircularWait(c *Check, rule string) {
 		}
 	}
 	c.Cond(n >= 1 && capRes >= 0, rule, "container."+hs.Name()+":sites", p.Pos(hs.Pos()), fmt.Sprintf("%d reap-all requests, result channel capacity %d", n, capRes), "cannot find the reap-all requests or the construction of the result channel")
-	c.Expect(rule, 3)
+	c.Expect(rule, 2)
 }
